@@ -144,6 +144,17 @@ type FieldDecl struct {
 	Line    int
 }
 
+// BoundedDecl: a bounded stand-in (a test harness under /verif/bounded run against the
+// tree under check) for a part of a property the deductive verifier does not decide.
+const modPathConst = "github.com/b2broker/simplefix-go"
+
+type BoundedDecl struct {
+	Name    string
+	PkgPath string
+	Tags    []string
+	What    string
+}
+
 type ChanDecl struct {
 	PkgPath   string
 	Type      string
@@ -189,6 +200,7 @@ type Contracts struct {
 	Ghosts map[string]*GhostDecl
 	GhostFields map[string]string  // name -> type: ghost attributes of objects (arrays GF_<name>)
 	Unscoped    map[string][]string // pkgpath::key -> property tags: functions outside a discipline sweep
+	Bounded     []BoundedDecl
 	RuleArgs    map[string][]string // rule name -> function keys (pkgpath::key) it applies to
 	Rules       map[string][]string // whole-module syntactic rules claimed for properties (rule[tags] name)
 	ChanLogs    []*ChanLog          // ghost logs of channel fields
@@ -340,7 +352,7 @@ func matchParen(s string, i int) int {
 }
 
 var topKeywords = map[string]bool{"func": true, "closure": true, "spec": true, "lemma": true, "interface": true,
-	"field": true, "chan": true, "ghost": true, "axiom": true, "global": true, "ghostfield": true, "unscoped": true, "chanlog": true, "callguard": true, "extern": true, "rule": true}
+	"field": true, "chan": true, "ghost": true, "axiom": true, "global": true, "ghostfield": true, "unscoped": true, "chanlog": true, "callguard": true, "extern": true, "rule": true, "bounded": true}
 
 var clauseKeywords = map[string]bool{"requires": true, "ensures": true, "modifies": true, "safety": true, "pure": true,
 	"inline": true, "may_panic": true, "witness": true, "lemma": true, "role": true, "holds": true, "acquires": true,
@@ -913,6 +925,24 @@ func (cs *Contracts) parseBlock(b []cline, path, pkgPath string) {
 			cl.Recv = f[3]
 		}
 		cs.ChanLogs = append(cs.ChanLogs, cl)
+	case "bounded":
+		// bounded[tags] name: what it stands in for
+		tags, _, body := parseTagged(rest)
+		for _, l := range b[1:] {
+			body += " " + l.text
+		}
+		name, what := body, ""
+		if k := strings.Index(body, ":"); k >= 0 {
+			name, what = strings.TrimSpace(body[:k]), strings.TrimSpace(body[k+1:])
+		}
+		// name [@dir]: the harness runs in the package of the declaring file unless a
+		// module-relative directory is given
+		pp := pkgPath
+		if f := strings.Fields(name); len(f) == 2 && strings.HasPrefix(f[1], "@") {
+			name = f[0]
+			pp = modPathConst + "/" + strings.TrimPrefix(f[1], "@")
+		}
+		cs.Bounded = append(cs.Bounded, BoundedDecl{Name: strings.TrimSpace(name), PkgPath: pp, Tags: tags, What: what})
 	case "rule":
 		// rule[tags] name   or   rule[tags] name: pkg-relative function keys, ...
 		tags, _, body := parseTagged(rest)
